@@ -259,6 +259,47 @@ theorem frame_recv_ok_iff (dec : List Nat → Bool) (maxSize : Nat) (avail : Lis
           · intro h; cases h
           · intro ⟨_, _, _, h⟩; exact absurd h h4
 
+/-- **mux_recv_ok_iff.** `mux_recv_proto` hands a value to its caller exactly when four length bytes arrived, the
+announced size is within `max_size`, **all** `size` body bytes arrived before the end of the stream, and the decoder
+accepts exactly those bytes. -/
+theorem mux_recv_ok_iff (dec : List Nat → Bool) (maxSize : Nat) (avail : List Nat) :
+    (muxRecvProto dec maxSize avail).cls = .ok ↔
+      (4 ≤ avail.length ∧ le32 (avail.take 4) ≤ maxSize ∧ le32 (avail.take 4) ≤ (avail.drop 4).length ∧
+        dec ((avail.drop 4).take (le32 (avail.take 4))) = true) :=
+  frame_recv_ok_iff dec maxSize avail
+
+theorem le32_le32Bytes (n : Nat) (h : n < 4294967296) : le32 (le32Bytes n) = n := by
+  unfold le32 le32Bytes
+  simp only [List.getD_cons_zero, List.getD_cons_succ]
+  omega
+
+/-- **truncated_frame_rejected.** Whatever the decoder would say about a prefix (protobuf is not prefix-free: a body cut
+on a field boundary is a valid encoding of a *different* message), a frame whose announced size is `size` and of which
+strictly fewer body bytes arrive before the stream ends (CLOSE / transport termination) is an error, never a value. -/
+theorem truncated_frame_rejected (dec : List Nat → Bool) (maxSize size : Nat) (body : List Nat)
+    (hs : size < 4294967296) (hb : body.length < size) :
+    (muxRecvProto dec maxSize (le32Bytes size ++ body)).cls ≠ .ok ∧
+    (recvProto dec maxSize (le32Bytes size ++ body)).cls ≠ .ok := by
+  have hl : (le32Bytes size).length = 4 := rfl
+  have ht : (le32Bytes size ++ body).take 4 = le32Bytes size := by
+    rw [List.take_append_of_le_length (by rw [hl]; exact Nat.le_refl 4)]
+    exact List.take_of_length_le (by rw [hl]; exact Nat.le_refl 4)
+  have hd : ((le32Bytes size ++ body).drop 4).length = body.length := by
+    simp only [List.length_drop, List.length_append, hl]; omega
+  constructor
+  · intro h
+    obtain ⟨_, _, h3, _⟩ := (mux_recv_ok_iff dec maxSize _).mp h
+    rw [ht, le32_le32Bytes size hs, hd] at h3
+    omega
+  · intro h
+    obtain ⟨_, _, h3, _⟩ := (frame_recv_ok_iff dec maxSize _).mp h
+    rw [ht, le32_le32Bytes size hs, hd] at h3
+    omega
+
+/-- the end-of-stream comparison is load-bearing: a decoder that accepts the empty prefix (e.g. `GetBlockResponse`,
+`PushValidatorAddrs`) would otherwise turn a cut-off frame into a different value -/
+example : (muxRecvProto (fun _ => true) 100 (le32Bytes 50 ++ [])).cls = .eosBody := by decide
+
 /-- the check is what bounds the allocation: without it a four-byte prefix makes the node allocate 4 GiB -/
 theorem frame_unchecked_allocates :
     (recvProtoUnchecked (fun _ => true) [255, 255, 255, 255]).alloc = 4294967295 ∧
